@@ -38,10 +38,18 @@ RULE = ("honest: 1..4 sequential requests on one connection for blobs of generat
         "server: real server against a scripted client sending a generated sequence from a catalogue of valid / invalid / oversized / "
         "garbage requests; client: real client against a scripted server applying one misbehaviour from a catalogue at request "
         "position 0..2 followed by an honest transfer on a fresh connection; non-trivial there = a misbehaviour (not the control). "
+        "slow_link: real server, 1..4 requests on one kept-alive connection over a link with flow control (4 KiB send buffer, byte rate "
+        "chosen per transfer) so that a transfer of 100..300 kB lasts 2 s, 40/50/55 s (longer than idle_timeout 30 s, shorter than "
+        "transfer_timeout 60 s: must complete, first or later on the connection) or 200 s (must be cut off within transfer_timeout, "
+        "what arrived is a prefix of the blob), pauses of 0..45 s between requests (> 30 s: the idle connection must be gone); "
+        "non-trivial = a 40..55 s or 200 s transfer. "
         "distinct = canonical JSON.")
 ASSUMPTIONS = [
     "TCP is represented by in-memory transports: connection_lost models RST/FIN; an exception escaping data_received closes the "
     "transport as asyncio's selector transport does (fatal error)",
+    "slow_link: the link is a transport of the harness with asyncio's own _FlowControlMixin (high/low water 4096/1024 bytes) drained "
+    "2 KiB at a time by virtual-time timers; closing an idle connection EARLIER than idle_timeout is 'within the configured "
+    "timeouts' and not judged",
     "timeouts are judged on the virtual clock: client bound = peer_connect_timeout + 2*blob_download_timeout, server bound = "
     "idle_timeout (+ transfer_timeout when a transfer was started)",
     "downloader part: 'honest' timing means connect within peer_connect_timeout, reply header within blob_download_timeout of the "
